@@ -18,11 +18,27 @@ META = dict(
           "element_densities is compared with an independent reader for every live table; number density and "
           "interatomic distance are read through EVERY atom object of each element - the element, each isotope, each "
           "ion of the element and each ion of each isotope (all charges of element.ions) - and must satisfy the two "
-          "relations there too; a cell is one (configuration, table, atom, quantity); all cells are distinct and "
-          "non-trivial"),
-    bound=dict(quick="6 configuration paths x all rows (exhaustive over rows)",
-               thorough="all 16 orderings of the configuration events up to length 4 x all rows"),
+          "relations there too.  Configuration events include the optional arguments of the init functions: a private "
+          "table initialised with reload=True from the start, a second init with the default arguments, a reload of "
+          "every group already initialised - on private tables and on the public table - and an explicit init of the "
+          "public table.  In every end state EVERY ACCESS ROUTE of a table to an element or nuclide (table attribute, "
+          "symbol(), name(), isotope(), iteration over the table / over the element, attribute + index, add_isotope of "
+          "an existing mass number, the parent of an ion, the special names D and T with their symbol / name / isotope "
+          "look-ups, the names exported by the package) must serve the very object the row sweep judged (or at least an "
+          "object serving the same mass, uncertainty, abundance and density: reported under its own signature); "
+          "a cell is one (configuration, table, atom, quantity or route); all cells are distinct and non-trivial"),
+    bound=dict(quick="23 configuration paths (9 of the original graph, 14 with option events) x all rows x all routes "
+                     "(exhaustive over rows and routes)",
+               thorough="all 23 orderings of the configuration events up to length 4, the fixed paths of the quick tier, "
+                        "and every option event inserted at every position of every ordering up to length 3 (333 paths) "
+                        "x all rows x all routes"),
     assumptions=["the embedded table text is the source of truth (loader errors are detected, not data errors)",
+                 "mass.init / density.init (table, reload=True), on a new table or again on an initialised one, and a "
+                 "repeated init with the default arguments are legal ways to initialise a table: afterwards it serves the "
+                 "embedded tables (a reload after a customisation is not judged)",
+                 "elements and nuclides are singletons of their table (core.py: 'elements are effectively singletons'): "
+                 "every look-up serves the same object; an equal-valued other object is reported separately "
+                 "(route-gives-other-object) from one with other values (route-serves-other-values)",
                  "physical constants come from periodictable.constants",
                  "read through an isotope, n = rho_iso*N_A/m_iso with rho_iso = rho*m_iso/m is the element's rho*N_A/m "
                  "and d is the element's d (density.py: isotopes keep the inter-atomic spacing of the natural form)",
@@ -35,7 +51,7 @@ META = dict(
                "[low,high] notations re-implemented with decimal alignment",
 )
 
-from ..configs import LAZY, EVENTS, QUICK_PATHS, all_paths, apply_event, judged_tables, snippet as _snippet
+from ..configs import LAZY, EVENTS, QUICK_PATHS, all_paths, apply_event, judged_tables, atom_routes, snippet as _snippet
 
 
 class Ref(object):
@@ -269,6 +285,58 @@ def sweep(pt, T, label, path, ref, acc):
     return cells
 
 
+def served(atom, nuclide):
+    """What an atom object serves for the quantities of the statement (an exception is an observation too)."""
+    out = []
+    for attr in ("mass", "_mass_unc", "density") + (("abundance",) if nuclide else ()):
+        try:
+            out.append(getattr(atom, attr))
+        except Exception as e:
+            out.append("%s: %s" % (type(e).__name__, e))
+    return out
+
+
+def same_served(a, b):
+    return all((x == y) if isinstance(x, str) or isinstance(y, str) else close(x, y, 1e-12, 1e-15) for x, y in zip(a, b))
+
+
+def sweep_routes(pt, T, label, path, acc):
+    """Every access route to every element and nuclide of T (table attribute, symbol(), name(), isotope(), iteration,
+    attribute + index, add_isotope of an existing mass number, the parent of an ion, the special names D and T, the
+    names exported by the package for the public table) must serve the very object the row sweep judged; if it serves
+    another object, that object must at least serve the same mass, uncertainty, abundance and density."""
+    cells = 0
+    failed_primary = set()
+    def bad(rule, route, key, expected, observed, code):
+        acc.violation("%s:%s:%s" % (rule, route.rstrip("*"), "public" if label == "public" else "private"),
+                      dict(path=list(path), table=label, key=key, rule=rule, route=route),
+                      expected=expected, observed=observed, standalone=_snippet(path, label, code))
+    for route, key, expr, canon, thunk in atom_routes(pt, T, label):
+        if route.endswith("*") and tuple(key) in failed_primary:
+            continue
+        cells += 1
+        nuclide = len(key) == 2
+        canon_expr = "T[%d]" % key[0] if not nuclide else "T[%d][%d]" % tuple(key)
+        code = ("a = %s; c = %s\nprint(a is c, [getattr(x, n, 'absent') for x in (a, c) for n in "
+                "('mass', '_mass_unc', 'density'%s)])" % (expr, canon_expr, ", 'abundance'" if nuclide else ""))
+        try:
+            obj = thunk()
+        except Exception as e:
+            bad("route-raises", route, key, "the atom %s" % canon_expr, "%s: %s" % (type(e).__name__, e), code)
+            failed_primary.add(tuple(key))
+            continue
+        if obj is canon:
+            acc.outcome("route:" + route.rstrip("*"))
+            continue
+        failed_primary.add(tuple(key))
+        want, got = served(canon, nuclide), served(obj, nuclide)
+        if not same_served(want, got):
+            bad("route-serves-other-values", route, key, want, got, code)
+        else:
+            bad("route-gives-other-object", route, key, "%s itself" % canon_expr, "another object: %r" % (obj,), code)
+    return cells
+
+
 def run_path(args):
     idx, path = args
     acc = Acc()
@@ -286,6 +354,7 @@ def run_path(args):
     live = [("public", pt.elements)] + sorted(tables.items())
     for label, T in judged_tables(path, live):
         cells = sweep(pt, T, label, path, ref, acc)
+        cells += sweep_routes(pt, T, label, path, acc)
         acc.states += cells
         acc.nontrivial += cells
         acc.evaluations += cells
